@@ -76,9 +76,9 @@ func Verif_C04_concurrent_writers() {
 	verifEngineOnly()
 	W, C, d := 2, 2, 2
 	if verifTier() >= 1 {
-		W, C, d = 3, 2, 3
+		W, C, d = 3, 2, 2
 	}
-	verifNote("real peer brought to Established (outbound), then 2 (quick) / 3 (thorough) writer goroutines x 2 WriteUpdate calls each with distinct bodies, a WriteUpdate from inside OnEstablished and one from inside the update handler (an inbound UPDATE is delivered), and a keep-alive timer expiry, all concurrent: all schedules with at most 2 (quick) / 3 (thorough) delays, sleep-set reduced (select arms ready together always all explored); then the remote closes; the concatenation of everything written is parsed by a reference framer")
+	verifNote("real peer brought to Established (outbound), then 2 (quick) / 3 (thorough) writer goroutines x 2 WriteUpdate calls each with distinct bodies, a WriteUpdate from inside OnEstablished and one from inside the update handler (an inbound UPDATE is delivered), and a keep-alive timer expiry, all concurrent: all schedules with at most 2 delays, sleep-set reduced (select arms ready together always all explored); then the remote closes; the concatenation of everything written is parsed by a reference framer")
 	e := newPenv(false)
 	e.pl.writeInEstablished = []byte{0xE0, 0xE0, 0xE0, 0xE0}
 	e.pl.writeInHandler = []byte{0xD0, 0xD0, 0xD0, 0xD0, 0xD0}
